@@ -173,7 +173,6 @@ func (in *Interp) jsonEncode(t types.Type, v Value) *OTerm {
 // coerceUTF8 returns the string as the list of its runes after encoding/json's coercion to valid UTF-8
 // (each invalid byte becomes U+FFFD). Opaque segments stay opaque units. Symbolic bytes fork per UTF-8 class.
 func (in *Interp) coerceUTF8(v Value) *OTerm {
-	c := in.Ctx
 	r := ropeOf(v)
 	args := []interface{}{}
 	rune32 := func(x uint64) Value { return mkInt(x, 32) }
@@ -194,60 +193,61 @@ func (in *Interp) coerceUTF8(v Value) *OTerm {
 			}
 		default:
 			bs := sg.Sym
-			i := 0
-			between := func(b *smt.Term, lo, hi uint64) *smt.Term {
-				return c.And(c.Cmp(smt.OpULe, c.BV(lo, 8), b), c.Cmp(smt.OpULe, b, c.BV(hi, 8)))
-			}
-			bits := func(b *smt.Term, mask uint64) *smt.Term {
-				return c.ZExt(c.Bin(smt.OpAnd, b, c.BV(mask, 8)), 32)
-			}
-			shl := func(t *smt.Term, n uint64) *smt.Term { return c.Bin(smt.OpShl, t, c.BV(n, 32)) }
-			or := func(a, b *smt.Term) *smt.Term { return c.Bin(smt.OpOr, a, b) }
-			for i < len(bs) {
-				b0 := bs[i]
-				if in.Branch(c.Cmp(smt.OpULt, b0, c.BV(0x80, 8)), "utf8 ascii") {
-					args = append(args, mkSymInt(c.ZExt(b0, 32)))
-					i++
-					continue
+			for i := 0; i < len(bs); {
+				r, w, valid := in.decodeRuneSym(bs, i)
+				if !valid {
+					in.Cover["json-invalid-utf8-coerced"] = true
 				}
-				// two-byte sequence C2..DF 80..BF
-				if i+1 < len(bs) && in.Branch(c.And(between(b0, 0xC2, 0xDF), between(bs[i+1], 0x80, 0xBF)), "utf8 2-byte") {
-					args = append(args, mkSymInt(or(shl(bits(b0, 0x1F), 6), bits(bs[i+1], 0x3F))))
-					i += 2
-					continue
-				}
-				// three-byte sequences (E0 A0..BF | E1..EC,EE,EF 80..BF | ED 80..9F) 80..BF
-				if i+2 < len(bs) {
-					b1, b2 := bs[i+1], bs[i+2]
-					lead := c.Or(c.And(c.Cmp(smt.OpEq, b0, c.BV(0xE0, 8)), between(b1, 0xA0, 0xBF)),
-						c.Or(c.And(c.Or(between(b0, 0xE1, 0xEC), between(b0, 0xEE, 0xEF)), between(b1, 0x80, 0xBF)),
-							c.And(c.Cmp(smt.OpEq, b0, c.BV(0xED, 8)), between(b1, 0x80, 0x9F))))
-					if in.Branch(c.And(lead, between(b2, 0x80, 0xBF)), "utf8 3-byte") {
-						args = append(args, mkSymInt(or(or(shl(bits(b0, 0x0F), 12), shl(bits(b1, 0x3F), 6)), bits(b2, 0x3F))))
-						i += 3
-						continue
-					}
-				}
-				// four-byte sequences
-				if i+3 < len(bs) {
-					b1, b2, b3 := bs[i+1], bs[i+2], bs[i+3]
-					lead := c.Or(c.And(c.Cmp(smt.OpEq, b0, c.BV(0xF0, 8)), between(b1, 0x90, 0xBF)),
-						c.Or(c.And(between(b0, 0xF1, 0xF3), between(b1, 0x80, 0xBF)),
-							c.And(c.Cmp(smt.OpEq, b0, c.BV(0xF4, 8)), between(b1, 0x80, 0x8F))))
-					if in.Branch(c.And(lead, c.And(between(b2, 0x80, 0xBF), between(b3, 0x80, 0xBF))), "utf8 4-byte") {
-						args = append(args, mkSymInt(or(or(shl(bits(b0, 0x07), 18), shl(bits(b1, 0x3F), 12)), or(shl(bits(b2, 0x3F), 6), bits(b3, 0x3F)))))
-						i += 4
-						continue
-					}
-				}
-				// invalid byte: replaced by U+FFFD
-				args = append(args, rune32(0xFFFD))
-				in.Cover["json-invalid-utf8-coerced"] = true
-				i++
+				args = append(args, r)
+				i += w
 			}
 		}
 	}
 	return &OTerm{Ctor: "runes", Args: args}
+}
+
+// decodeRuneSym decodes one UTF-8 sequence starting at bs[i] (symbolic bytes), forking on its shape as
+// utf8.DecodeRune classifies it: the rune (32-bit), its width in bytes, and whether it was well-formed (an
+// ill-formed byte decodes to U+FFFD of width 1).
+func (in *Interp) decodeRuneSym(bs []*smt.Term, i int) (Value, int, bool) {
+	c := in.Ctx
+	between := func(b *smt.Term, lo, hi uint64) *smt.Term {
+		return c.And(c.Cmp(smt.OpULe, c.BV(lo, 8), b), c.Cmp(smt.OpULe, b, c.BV(hi, 8)))
+	}
+	bits := func(b *smt.Term, mask uint64) *smt.Term {
+		return c.ZExt(c.Bin(smt.OpAnd, b, c.BV(mask, 8)), 32)
+	}
+	shl := func(t *smt.Term, n uint64) *smt.Term { return c.Bin(smt.OpShl, t, c.BV(n, 32)) }
+	or := func(a, b *smt.Term) *smt.Term { return c.Bin(smt.OpOr, a, b) }
+	b0 := bs[i]
+	if in.Branch(c.Cmp(smt.OpULt, b0, c.BV(0x80, 8)), "utf8 ascii") {
+		return mkSymInt(c.ZExt(b0, 32)), 1, true
+	}
+	// two-byte sequence C2..DF 80..BF
+	if i+1 < len(bs) && in.Branch(c.And(between(b0, 0xC2, 0xDF), between(bs[i+1], 0x80, 0xBF)), "utf8 2-byte") {
+		return mkSymInt(or(shl(bits(b0, 0x1F), 6), bits(bs[i+1], 0x3F))), 2, true
+	}
+	// three-byte sequences (E0 A0..BF | E1..EC,EE,EF 80..BF | ED 80..9F) 80..BF
+	if i+2 < len(bs) {
+		b1, b2 := bs[i+1], bs[i+2]
+		lead := c.Or(c.And(c.Cmp(smt.OpEq, b0, c.BV(0xE0, 8)), between(b1, 0xA0, 0xBF)),
+			c.Or(c.And(c.Or(between(b0, 0xE1, 0xEC), between(b0, 0xEE, 0xEF)), between(b1, 0x80, 0xBF)),
+				c.And(c.Cmp(smt.OpEq, b0, c.BV(0xED, 8)), between(b1, 0x80, 0x9F))))
+		if in.Branch(c.And(lead, between(b2, 0x80, 0xBF)), "utf8 3-byte") {
+			return mkSymInt(or(or(shl(bits(b0, 0x0F), 12), shl(bits(b1, 0x3F), 6)), bits(b2, 0x3F))), 3, true
+		}
+	}
+	// four-byte sequences
+	if i+3 < len(bs) {
+		b1, b2, b3 := bs[i+1], bs[i+2], bs[i+3]
+		lead := c.Or(c.And(c.Cmp(smt.OpEq, b0, c.BV(0xF0, 8)), between(b1, 0x90, 0xBF)),
+			c.Or(c.And(between(b0, 0xF1, 0xF3), between(b1, 0x80, 0xBF)),
+				c.And(c.Cmp(smt.OpEq, b0, c.BV(0xF4, 8)), between(b1, 0x80, 0x8F))))
+		if in.Branch(c.And(lead, c.And(between(b2, 0x80, 0xBF), between(b3, 0x80, 0xBF))), "utf8 4-byte") {
+			return mkSymInt(or(or(shl(bits(b0, 0x07), 18), shl(bits(b1, 0x3F), 12)), or(shl(bits(b2, 0x3F), 6), bits(b3, 0x3F)))), 4, true
+		}
+	}
+	return mkInt(0xFFFD, 32), 1, false // ill-formed byte
 }
 
 func init() {
